@@ -106,7 +106,13 @@ PROPS: dict[str, dict[str, Any]] = {
     },
     "C15": {
         "level": "exploration",
-        "sidecars": [],
+        # the two pieces of state a run can inherit from an earlier one are under contract elsewhere; the same sidecars are discharged here:
+        #   contracts/c09.py  find_unique_graphs empties job_hashes before hashing: its postcondition (one row per root of the window, no
+        #                     IntegrityError) does not mention the rows found at entry
+        #   contracts/c11.py  a fresh DataHolder starts with the default time range, and get_time_window on it is the whole axis
+        #                     (lemma no_ingestion_means_everything): nothing of an earlier process's min/max survives
+        "sidecars": ["contracts/c09.py", "contracts/c11.py"],
+        "native_n": {"quick": 150, "thorough": 2000},
         "bounded": [{"script": "bounded/store_harness.py", "args": ["--mode", "c15"]}],
         "rule": "bounded stand-in: every history of <= 3 (thorough 4) runs with flags {ingest, no-ingest} x {unique graphs on/off} over 4 small stores "
                 "(complete traces; a trace with a missing parent; a single span; a dangling-only trace; time_buffer 0) and over a store of six traces spread "
@@ -115,7 +121,9 @@ PROPS: dict[str, dict[str, Any]] = {
                 "data holder, cleaning x3, optional find_unique_graphs, streaming + sequencing; each run must terminate, leave the store well-formed and "
                 "give the PV sequences / selected shapes of the first run with the same flags. In-process emulation of separate runs (the temp table is "
                 "removed from Base.metadata between runs as a new process would not have it). non-trivial = more than one run",
-        "assumptions": ["bounded, not proved; runs are emulated in one process (fresh holder + engine per run on the same file)"],
+        "assumptions": ["bounded, not proved; runs are emulated in one process (fresh holder + engine per run on the same file)",
+                        "proved part: only the two inherited pieces of state (job_hashes rows, min/max timestamps), through the contracts of "
+                        "contracts/c09.py (ghost store, trusted DB primitives) and contracts/c11.py; the composition of a whole run is not under contract"],
     },
     "C16": {
         "level": "proof",
